@@ -72,7 +72,23 @@ def run(chk):
                 fact={"literal": lit, "comparison": norm(t.node)},
                 expect="a member of circuit.supported_types",
             )
-    chk.floor("type literals compared in lint", nv, 5)
+    # ... and the type names in module-level tables of the file (a table-driven lint compares no literal itself): a table at least
+    # three of whose strings are supported types is a table about node types - every string in it must be one
+    for st in repo.tree[FILE].body:
+        value = st.value if isinstance(st, (ast.Assign, ast.AnnAssign)) else None
+        if value is None:
+            continue
+        lits = [x for x in ast.walk(value) if isinstance(x, ast.Constant) and isinstance(x.value, str)]
+        if sum(1 for x in lits if x.value in sup) < 3:
+            continue
+        tname = norm(st.targets[0] if isinstance(st, ast.Assign) else st.target)[:40]
+        for x in lits:
+            nv += 1
+            chk.ob("C20.V.vocabulary", f"table {tname}::{x.value}", x.value in sup, file=FILE, func="<module>", line=x.lineno, fact={"literal": x.value, "table": tname}, expect="a member of circuit.supported_types")
+    if nv >= 5:
+        chk.floor("type literals compared in lint", nv, 5)
+    else:
+        chk.note(f"C20.V.vocabulary abstains: only {nv} type literal(s) are compared in utils.py (the rules are written some other way); C20.N decides on abstract states")
 
     body = body_without_doc(fn)
     # names a refactoring may bind at module level or in the function prologue (lookup tables, helpers)
